@@ -225,6 +225,47 @@ def c06_jobs(tier):
     return jobs
 
 
+def c19_jobs(tier):
+    jobs = []
+    T = dict(timeout_s=(250 if tier == "quick" else 3300))
+    nt, ns = 7, 8
+    for t1 in range(nt):
+        for t2 in range(nt):
+            for sep in range(ns):
+                jobs.append(J("sml", "ZZ_C19_concat", t1=t1, t2=t2, sep=sep, three=0, **T))
+    triples = [(0, 1, 0, 0, 2), (1, 1, 1, 7, 0), (4, 2, 3, 0, 0), (5, 5, 5, 2, 5), (6, 0, 6, 7, 7)]
+    if tier != "quick":
+        triples += [(a, b, c, s, r) for a in (0, 1, 5) for b in (1, 4, 6) for c in (0, 2, 3) for s in (0, 3, 7) for r in (0, 5)]
+    for a, b, c, s, r in triples:
+        jobs.append(J("sml", "ZZ_C19_concat", t1=a, t2=b, t3=c, sep=s, sep2=r, three=1, **T))
+    return jobs
+
+
+SEQ_TOK = [18, 17, 16, 7, 14, 7]
+
+
+def c08_jobs(tier):
+    jobs = []
+    T = dict(timeout_s=(250 if tier == "quick" else 3300))
+    for seq, nt in enumerate(SEQ_TOK):
+        for j in range(nt + 1):
+            for n in ((0, 1, 2) if tier == "quick" else (0, 1, 2, 3)):
+                if tier == "quick" and n == 2 and (j + seq) % 2 == 1:
+                    continue
+                jobs.append(J("sml", "ZZ_C08_space", seq=seq, j=j, n=n, **T))
+            for k in ((0, 1, 2) if tier == "quick" else (0, 1, 2, 3, 4)):
+                for end in (0, 1, 2):
+                    for blank in (0, 1):
+                        if end == 2 and j != nt:
+                            continue
+                        if tier == "quick" and (k == 2 and (j + seq) % 3 != 0 or end == 1 and blank == 1):
+                            continue
+                        jobs.append(J("sml", "ZZ_C08_comment", seq=seq, j=j, k=k, end=end, blank=blank, **T))
+        for j in range(nt):
+            jobs.append(J("sml", "ZZ_C08_case", seq=seq, j=j, **T))
+    return jobs
+
+
 def c12_jobs(tier):
     jobs = []
     for w in (1, 2, 4, 8, 0, 3):
@@ -265,6 +306,16 @@ def smoke_jobs(tier):
 
 
 PROPS = {
+    "C08": dict(jobs=c08_jobs, must_reach=["end"],
+                level_text="Bounded model checking, relational: the same token sequence is laid out twice (base and variant) and parsed twice in one symbolic path; the variant has arbitrary white-space bytes at a boundary, a // comment with arbitrary bytes, or symbolic letter case in a keyword; messages must be identical and every diagnostic must keep its text and move exactly with the token it points at.",
+                level_note="Trusted: go/ssa, engine, z3. Token sequences: 6 (valid, warning, two messages, range error, duplicate variable, invalid type).",
+                bounds={"quick": "one boundary per path: 0..2 white-space bytes; comments of 0..2 arbitrary bytes ending in LF, CRLF or end of input; all case patterns of one keyword", "thorough": "3 white-space bytes, comments up to 4 bytes"},
+                outside=["two simultaneous layout changes", "comment text longer than the bound", "removing white space between tokens that are not self-delimiting"]),
+    "C19": dict(jobs=c19_jobs, must_reach=["end"],
+                level_text="Bounded model checking, relational: Parse(t1 sep t2 [sep t3]) and Parse of each part run in the same symbolic path (holes: digits, names, one arbitrary white-space separator byte); message count, printed form, variables, header fields and the position-shifted warnings are compared.",
+                level_note="Trusted: go/ssa, engine, z3. Texts come from a menu of 7 accepted skeletons that reuse variable names and contain ellipses, header-only messages, names and terminators in every position.",
+                bounds={"quick": "7x7 text pairs x 8 separators, 5 triples", "thorough": "all pairs x separators, 167 triples"},
+                outside=["texts outside the menu", "separators longer than 4 bytes"]),
     "C06": dict(jobs=c06_jobs, must_reach=["end"],
                 level_text="Bounded model checking of totality: the whole lexer+parser is executed symbolically on arbitrary byte strings, on SML skeletons with arbitrary bytes inserted at every position, and on texts whose size/count/code numbers have symbolic digits; on every path no panic escapes, the run terminates (channel deadlock and fuel exhaustion are reported), errors imply no messages, diagnostics carry an in-range 'Ln x, Col y: ', and no allocation request is sized by a number in the text (witnesses measured natively).",
                 level_note="Trusted: go/ssa, engine (buffered-channel FIFO model of the lexer's token channel, regexp simulation), z3. Memory verdicts are native TotalAlloc measurements of solver witnesses.",
